@@ -569,7 +569,7 @@ FMT_STUBS = r"""
 // ---- core::fmt reduced to a token log (R7; model of units/c10_notation.py): `f.write_str(s)` appends Str(s); Display / Debug are traits whose `fmt`
 //      appends the implementor's token sequence (abstract for keys and miniscripts, PROVED for TapTree and Tr below) ---------------------------------
 pub uninterp spec fn val_of<T>(x: T) -> int;
-pub ghost enum Tok { Str(Seq<char>), Disp(int), Dbg(int), Checksum(bool) }
+pub ghost enum Tok { Str(Seq<char>), Disp(int), Dbg(int), Checksum }
 pub open spec fn t_open() -> Tok { Tok::Str("{"@) }
 pub open spec fn t_comma() -> Tok { Tok::Str(","@) }
 pub open spec fn t_close() -> Tok { Tok::Str("}"@) }
@@ -591,20 +591,36 @@ mod fmt {
         pub(crate) fn alternate(&self) -> (r: bool)
             ensures r == self.alt,
         { unimplemented!() }
+        // R18: the Formatter that `write!(self, "..{}..", x)` hands to x's fmt: same output, the flags of the `{}` / `{:?}` placeholder (no `#`)
+        #[verifier::external_body]
+        pub(crate) fn plain(&mut self) -> (r: &mut Formatter)
+            ensures r.log@ == old(self).log@, !r.alt, final(self).log@ == final(r).log@, final(self).alt == old(self).alt,
+        { unimplemented!() }
     }
     pub(crate) trait Display {
         spec fn disp_pre(&self) -> bool;
         spec fn disp_toks(&self, alt: bool) -> Seq<Tok>;
         fn fmt(&self, f: &mut Formatter) -> (r: Result)
             requires self.disp_pre(),
-            ensures r is Ok ==> final(f).log@ == old(f).log@ + self.disp_toks(old(f).alt), final(f).alt == old(f).alt;
+            ensures r is Ok ==> final(f).log@ =~= old(f).log@ + self.disp_toks(old(f).alt) && final(f).alt == old(f).alt;
     }
     pub(crate) trait Debug {
         spec fn dbg_pre(&self) -> bool;
         spec fn dbg_toks(&self) -> Seq<Tok>;
         fn fmt(&self, f: &mut Formatter) -> (r: Result)
             requires self.dbg_pre(),
-            ensures r is Ok ==> final(f).log@ == old(f).log@ + self.dbg_toks(), final(f).alt == old(f).alt;
+            ensures r is Ok ==> final(f).log@ =~= old(f).log@ + self.dbg_toks() && final(f).alt == old(f).alt;
+    }
+    // std: `impl<T: Display> Display for &T` / `impl<T: Debug> Debug for &T` forward to T
+    impl<T: Display> Display for &T {
+        open spec fn disp_pre(&self) -> bool { (**self).disp_pre() }
+        open spec fn disp_toks(&self, alt: bool) -> Seq<Tok> { (**self).disp_toks(alt) }
+        fn fmt(&self, f: &mut Formatter) -> (r: Result) { Display::fmt(*self, f) }
+    }
+    impl<T: Debug> Debug for &T {
+        open spec fn dbg_pre(&self) -> bool { (**self).dbg_pre() }
+        open spec fn dbg_toks(&self) -> Seq<Tok> { (**self).dbg_toks() }
+        fn fmt(&self, f: &mut Formatter) -> (r: Result) { Debug::fmt(*self, f) }
     }
 }
 """
@@ -882,6 +898,721 @@ def emit_fmt(vf):
                "view: &TapTree<Pk>, fmt_ms: F, tt_pt: spec_fn(Miniscript<Pk, Tap>) -> Tok", ["tap_tree_wf(*view)", "printer_prints(fmt_ms, tt_pt)"])
 
 
+
+# ----------------------------------------------------------------------------------------------------------------------------------
+# R18: write!(F, "fmt", args..)  ->  the calls format_args! / core::fmt::write make, in order
+# ----------------------------------------------------------------------------------------------------------------------------------
+def _split_args(s):
+    out, depth, cur, instr = [], 0, "", False
+    i = 0
+    while i < len(s):
+        ch = s[i]
+        if instr:
+            cur += ch
+            if ch == "\\":
+                cur += s[i + 1]
+                i += 1
+            elif ch == '"':
+                instr = False
+        elif ch == '"':
+            instr = True
+            cur += ch
+        elif ch in "([{":
+            depth += 1
+            cur += ch
+        elif ch in ")]}":
+            depth -= 1
+            cur += ch
+        elif ch == "," and depth == 0:
+            out.append(cur.strip())
+            cur = ""
+        else:
+            cur += ch
+        i += 1
+    if cur.strip():
+        out.append(cur.strip())
+    return out
+
+
+def write_macro(required=True):
+    """`write!(F, "p0{}p1{:?}p2", a, b)` -> match F.write_str("p0") { Err(e) => Err(e), Ok(()) => match fmt::Display::fmt(&a, F') { .. => F.write_str("p2") } }
+    F' = F.plain() for a fmt::Formatter, F.formatter() for a variable bound to `checksum::Formatter::new(..)` (the Formatter core::fmt::write builds over the writer).
+    Definition of format_args! + core::fmt::write: literal pieces and arguments alternate, in order, the first error is returned.  Anything else in the format
+    string (width, `#`, positional / named arguments, escaped braces) -> UNDECIDED."""
+    @rule("R18-write-macro")
+    def rw(text):
+        wrappers = set(re.findall(r"let\s+mut\s+(\w+)\s*=\s*(?:checksum::)?Formatter::new\(", text))
+        n = 0
+        while True:
+            m = re.search(r"\bwrite!\(", text)
+            if not m:
+                break
+            close = match_close(text, m.end() - 1)
+            args = _split_args(text[m.end():close])
+            if len(args) < 2 or not re.fullmatch(r'"(?:[^"\\{}]|\{\}|\{:\?\})*"', args[1]):
+                raise Undecided("write!: format string %r outside the modelled subset" % (args[1:2],))
+            target, fmtstr, vals = args[0], args[1][1:-1], args[2:]
+            pieces = re.split(r"(\{\}|\{:\?\})", fmtstr)
+            inner = "%s.formatter()" % target if target in wrappers else "%s.plain()" % target
+            calls = []
+            k = 0
+            for pc in pieces:
+                if pc == "{}" or pc == "{:?}":
+                    if k >= len(vals):
+                        raise Undecided("write!: more placeholders than arguments")
+                    calls.append("fmt::%s::fmt(&%s, %s)" % ("Display" if pc == "{}" else "Debug", vals[k], inner))
+                    k += 1
+                elif pc:
+                    calls.append('%s.write_str("%s")' % (target, pc))
+            if k != len(vals) or not calls:
+                raise Undecided("write!: arguments and placeholders do not match")
+            expr = calls[-1]
+            for c in reversed(calls[:-1]):
+                expr = "match %s { Err(tt_e) => Err(tt_e), Ok(()) => %s }" % (c, expr)
+            text = text[:m.start()] + "(" + expr + ")" + text[close + 1:]
+            n += 1
+        if n == 0:
+            return None if required else text
+        return text
+    return rw
+
+
+def leaf_printer_closure(pt):
+    """R10: the closure handed to fmt_helper gets its parameter types and an `ensures` (one token per leaf: `pt`), the call the ghost argument"""
+    @rule("R10-closure-ensures")
+    def rw(text):
+        m = re.search(r"\bfmt_helper\(", text)
+        if not m:
+            return None
+        close = match_close(text, m.end() - 1)
+        args = _split_args(text[m.end():close])
+        if len(args) < 3:
+            return None
+        mc = re.fullmatch(r"\|\s*(\w+)\s*,\s*(\w+)\s*\|\s*(.*)", ", ".join(args[2:]), flags=re.S)
+        if not mc:
+            raise Undecided("fmt_helper call: third argument is not a closure `|F, MS| BODY`")
+        F, MS, body = mc.group(1), mc.group(2), mc.group(3)
+        clo = ("|%s: &mut fmt::Formatter, %s: &Miniscript<Pk, Tap>| -> (tt_r: fmt::Result)\n"
+               "            ensures tt_r is Ok ==> final(%s).log@ =~= old(%s).log@.push(%s(*%s)) && final(%s).alt == old(%s).alt\n"
+               "            { %s }" % (F, MS, F, F, pt, MS, F, F, body))
+        return text[:m.end()] + "%s, %s, %s, Ghost(%s)" % (args[0], args[1], clo, pt) + text[close:]
+    return rw
+
+
+CHECKSUM_STUBS = r"""
+// ---- descriptor/checksum.rs: the engine is opaque (its arithmetic is unit k10_checksum's); the checksum it yields is ONE token --------------
+pub struct Engine { opaque: u8 }
+pub struct ChecksumError { opaque: u8 }
+impl Engine {
+    #[verifier::external_body] pub fn new() -> Engine { unimplemented!() }
+    #[verifier::external_body] pub fn input(&mut self, s: &str) -> Result<(), ChecksumError> { unimplemented!() }
+}
+impl<'f> Formatter<'f> {
+    // R18: the fmt::Formatter that core::fmt::write builds over this writer for the arguments of `write!(wrapped_f, ..)`: everything written to it goes
+    // through write_str of the wrapper, i.e. to the wrapped formatter (and into the checksum engine, which is not modelled); flags of a plain `{}`
+    #[verifier::external_body]
+    pub fn formatter(&mut self) -> (r: &mut fmt::Formatter)
+        ensures r.log@ == old(self).fmt.log@, !r.alt, final(self).fmt.log@ == final(r).log@, final(self).fmt.alt == old(self).fmt.alt,
+                *final(final(self).fmt) == *final(old(self).fmt),
+    { unimplemented!() }
+    // `#` and the eight checksum characters (unit k10_checksum): one token
+    #[verifier::external_body]
+    pub fn write_checksum(&mut self) -> (r: fmt::Result)
+        ensures r is Ok ==> final(self).fmt.log@ == old(self).fmt.log@.push(Tok::Checksum) && final(self).fmt.alt == old(self).fmt.alt,
+                *final(final(self).fmt) == *final(old(self).fmt),
+    { unimplemented!() }
+}
+"""
+
+TR_FMT_SPEC = r"""
+// what the tree part of a descriptor prints
+pub open spec fn tr_tree_wf<Pk: MiniscriptKey>(tr: Tr<Pk>) -> bool { tr.tree matches Some(tt) ==> tap_tree_wf(tt) }
+// ORACLE (BIP386): tr(KEY) | tr(KEY,TREE)
+pub open spec fn tr_ntn<Pk: MiniscriptKey>(tr: Tr<Pk>, key: Seq<Tok>, pt: spec_fn(Miniscript<Pk, Tap>) -> Tok) -> Seq<Tok> {
+    seq![Tok::Str("tr("@)] + key + (match tr.tree { Some(tt) => seq![Tok::Str(","@)] + tree_ntn(tt, pt), None => Seq::empty() }) + seq![Tok::Str(")"@)]
+}
+"""
+
+R7_CK = [sub("R7-lifetime", r"fmt::Formatter<'a>", "fmt::Formatter", required=False), sub("R7-lifetime", r"<'f,\s*'a>", "<'f>", required=False)]
+
+
+def emit_display(vf):
+    # ---- TapTree: Display / Debug ------------------------------------------------------------------------------------------------------
+    for trait, pt, pre, toks in (("Display", "disp_tok()", "disp_pre", "disp_toks(&self, alt: bool)"), ("Debug", "dbg_tok()", "dbg_pre", "dbg_toks(&self)")):
+        with vf.block("impl<Pk: MiniscriptKey> fmt::%s for TapTree<Pk>" % trait):
+            vf.raw("    spec fn %s(&self) -> bool { tap_tree_wf(*self) }\n    spec fn %s -> Seq<Tok> { tree_ntn(*self, %s) }\n" % (pre, toks, pt))
+            vf.fn(TAPTREE, "impl:fmt::%s for TapTree<Pk>/fn:fmt" % trait, qual="TapTree as %s" % trait, props=("C15", "C10", "C11"),
+                  rewrites=[write_macro(), leaf_printer_closure(pt)],
+                  contract=Contract(ensures=[
+                      C("written_is_the_bip386_notation_with_the_%s_form_of_the_leaves" % trait.lower(), "r is Ok ==> final(f).log@ == old(f).log@ + tree_ntn(*self, %s)" % pt, P1510)]))
+    # ---- checksum::Formatter (the writer Display for Tr goes through) ---------------------------------------------------------------------
+    vf.item(CHECKSUM, "struct:Formatter", rewrites=R7_CK)
+    vf.raw(CHECKSUM_STUBS)
+    vf.trust("Engine / ChecksumError stubs, Formatter::write_checksum (external_body: appends Tok::Checksum), Formatter::formatter (external_body, R18)",
+             "the checksum engine (polymod arithmetic, character set) is unit k10_checksum's; here the checksum is one token.  formatter() models the fmt::Formatter that core::fmt::write "
+             "builds over a `fmt::Write` writer: what is written to it reaches the wrapped formatter in the same order")
+    FIN = "*final(final(self).fmt) == *final(old(self).fmt)"
+    with vf.block("impl<'f> Formatter<'f>"):
+        vf.fn(CHECKSUM, "impl:Formatter<'f, 'a>/fn:new", qual="checksum::Formatter", props=("C10", "C11"), rewrites=R7_CK,
+              contract=Contract(ensures=[C("wraps_the_formatter", "*r.fmt == *old(f) && *final(r.fmt) == *final(f)", ("C10",))]))
+        vf.fn(CHECKSUM, "impl:fmt::Write for Formatter<'_, '_>/fn:write_str", qual="checksum::Formatter", props=("C10", "C11"),
+              rewrites=[sub("R10-closure-type", r"\.map_err\(\|_\|\s*fmt::Error\)", ".map_err(|_e: ChecksumError| -> (o: fmt::Error) { fmt::Error })")],
+              contract=Contract(ensures=[
+                  C("forwards_to_the_wrapped_formatter", "r is Ok ==> final(self).fmt.log@ == old(self).fmt.log@.push(Tok::Str(s@)) && final(self).fmt.alt == old(self).fmt.alt", ("C10",)),
+                  C("same_wrapped_formatter", FIN, ())]))
+        vf.fn(CHECKSUM, "impl:Formatter<'f, 'a>/fn:write_checksum_if_not_alt", qual="checksum::Formatter", props=("C10", "C11"),
+              contract=Contract(ensures=[
+                  C("checksum_unless_alternate", "r is Ok ==> final(self).fmt.log@ == (if old(self).fmt.alt { old(self).fmt.log@ } else { old(self).fmt.log@.push(Tok::Checksum) }) "
+                    "&& final(self).fmt.alt == old(self).fmt.alt", ("C10",)),
+                  C("same_wrapped_formatter", FIN, ())]))
+    # ---- Tr: Display / Debug ---------------------------------------------------------------------------------------------------------------
+    vf.raw(TR_FMT_SPEC)
+    with vf.block("impl<Pk: MiniscriptKey + fmt::Display> fmt::Display for Tr<Pk>"):
+        vf.raw("    spec fn disp_pre(&self) -> bool { tr_tree_wf(*self) && self.internal_key.disp_pre() }\n"
+               "    spec fn disp_toks(&self, alt: bool) -> Seq<Tok> { tr_ntn(*self, self.internal_key.disp_toks(false), disp_tok()) + (if alt { Seq::empty() } else { seq![Tok::Checksum] }) }\n")
+        vf.fn(TRMOD, "impl:fmt::Display for Tr<Pk>/fn:fmt", qual="Tr as Display", props=("C15", "C10", "C11"),
+              rewrites=[sub("R7-use", r"\buse fmt::Write;\s*", ""), write_macro(), sub("R7-path", r"\bchecksum::Formatter\b", "Formatter")],
+              contract=Contract(ensures=[
+                  C("written_is_tr_key_comma_tree_checksum", "r is Ok ==> final(f).log@ =~= old(f).log@ + tr_ntn(*self, self.internal_key.disp_toks(false), disp_tok()) "
+                    "+ (if old(f).alt { Seq::<Tok>::empty() } else { seq![Tok::Checksum] })", P1510)]))
+    with vf.block("impl<Pk: MiniscriptKey + fmt::Debug> fmt::Debug for Tr<Pk>"):
+        vf.raw("    spec fn dbg_pre(&self) -> bool { tr_tree_wf(*self) && self.internal_key.dbg_pre() }\n"
+               "    spec fn dbg_toks(&self) -> Seq<Tok> { tr_ntn(*self, self.internal_key.dbg_toks(), dbg_tok()) }\n")
+        vf.fn(TRMOD, "impl:fmt::Debug for Tr<Pk>/fn:fmt", qual="Tr as Debug", props=("C15", "C10", "C11"), rewrites=[write_macro()],
+              contract=Contract(ensures=[
+                  C("written_is_tr_key_comma_tree", "r is Ok ==> final(f).log@ =~= old(f).log@ + tr_ntn(*self, self.internal_key.dbg_toks(), dbg_tok())", P1510)]))
+
+
+
+# =====================================================================================================================================
+# PART 4: parsing
+# =====================================================================================================================================
+RANGE_STUB = r"""
+// ---- core::ops::RangeInclusive<usize> (R7): std's definition written out -- `start..=end` with the `exhausted` flag set by the iteration that yields `end` ----
+pub struct RangeInclusive { start: usize, end: usize, exhausted: bool }
+impl RangeInclusive {
+    // the indices still to be yielded are lo() ..= hi()
+    pub open spec fn lo(&self) -> int { if self.exhausted { self.end + 1 } else { self.start as int } }
+    pub open spec fn hi(&self) -> int { self.end as int }
+    pub fn new(start: usize, end: usize) -> (r: Self)
+        ensures r.lo() == start, r.hi() == end, !r.exhausted,
+    { RangeInclusive { start, end, exhausted: false } }
+    pub fn is_empty(&self) -> (r: bool)
+        ensures r == (self.lo() > self.hi()),
+    { self.exhausted || !(self.start <= self.end) }
+    pub fn start(&self) -> (r: &usize)
+        ensures *r == self.start, !self.exhausted ==> *r == self.lo(),
+    { &self.start }
+    pub fn end(&self) -> (r: &usize)
+        ensures *r == self.hi(),
+    { &self.end }
+    pub fn next(&mut self) -> (r: Option<usize>)
+        ensures final(self).hi() == old(self).hi(),
+                old(self).lo() > old(self).hi() ==> r is None && final(self).lo() > final(self).hi(),
+                old(self).lo() <= old(self).hi() ==> r == Some(old(self).lo() as usize) && final(self).lo() == old(self).lo() + 1,
+    {
+        if self.is_empty() { return None; }
+        let is_iterating = self.start < self.end;
+        let n = self.start;
+        if is_iterating { self.start = n + 1; } else { self.exhausted = true; }
+        Some(n)
+    }
+}
+"""
+
+PARSE_ERRORS = r"""
+// ---- error types: payloads are only moved around (reduced to the variants the extracted text constructs) -----------------------
+pub struct ValidationError { opaque: u8 }
+pub struct ValidationParams { opaque: u8 }
+pub enum ParseTreeError { IncorrectName { actual: String, expected: &'static str }, Other }
+pub enum ParseError { Tree(ParseTreeError), Other }
+pub enum Error { Parse(ParseError), Validation(ValidationError), TapTreeDepthError(TapTreeDepthError), Other }
+// src/lib.rs: `impl From<TapTreeDepthError> for Error` (what the `?` on push_inner_node goes through)
+impl From<TapTreeDepthError> for Error { fn from(e: TapTreeDepthError) -> Self { Self::TapTreeDepthError(e) } }
+impl vstd::std_specs::convert::FromSpecImpl<TapTreeDepthError> for Error {
+    open spec fn obeys_from_spec() -> bool { true }
+    open spec fn from_spec(e: TapTreeDepthError) -> Self { Error::TapTreeDepthError(e) }
+}
+#[verifier::external_body] pub fn str_to_owned_(s: &str) -> String { unimplemented!() }
+#[verifier::external_body] pub fn str_is_empty_(s: &str) -> (r: bool) ensures r == (s@.len() == 0) { unimplemented!() }
+impl vstd::std_specs::cmp::PartialEqSpecImpl for Parens {
+    open spec fn obeys_eq_spec() -> bool { true }
+    open spec fn eq_spec(&self, o: &Parens) -> bool { *self == *o }
+}
+"""
+
+PARSE_STUBS = r"""
+// ---- the callees of Tr::from_tree that are other units' business (arbitrary verdicts; the parse of a leaf is an uninterpreted FUNCTION of its node) ----
+pub uninterp spec fn spec_ms_from_tree<Pk: MiniscriptKey, Ctx: ScriptContext>(ns: Seq<TreeNode>, x: int) -> Result<Miniscript<Pk, Ctx>, Error>;
+impl<Pk: MiniscriptKey, Ctx: ScriptContext> Miniscript<Pk, Ctx> {
+    #[verifier::external_body]
+    pub fn from_tree(node: TreeIterItem) -> (r: Result<Self, Error>)
+        requires node.valid(),
+        ensures r == spec_ms_from_tree::<Pk, Ctx>(node.nodes@, node.index as int),
+    { unimplemented!() }
+    #[verifier::external_body]
+    pub fn validate(&self, params: &ValidationParams) -> Result<(), ValidationError> { unimplemented!() }
+}
+impl Tap {
+    #[verifier::external_body]
+    pub fn CONSENSUS() -> ValidationParams { unimplemented!() }
+}
+// R14: `X.verify_toplevel(NAME, A..=B).map_err(From::from).map_err(Error::Parse)` and the same for verify_n_children (RangeInclusive::contains)
+#[verifier::external_body]
+pub fn verify_toplevel_<'s>(x: TreeIterItem<'s>, name: &'static str, lo: usize, hi: usize) -> (r: Result<TreeIterItem<'s>, Error>)
+    requires x.valid(),
+    ensures r is Ok ==> lo <= nch(x.nodes@, x.index as int) <= hi,
+{ unimplemented!() }
+#[verifier::external_body]
+pub fn verify_n_children_<'s>(x: TreeIterItem<'s>, name: &'static str, lo: usize, hi: usize) -> (r: Result<(), Error>)
+    requires x.valid(),
+    ensures r is Ok <==> lo <= nch(x.nodes@, x.index as int) <= hi,
+{ unimplemented!() }
+impl<'s> TreeIterItem<'s> {
+    #[verifier::external_body]
+    pub fn verify_terminal<T>(&self, description: &'static str) -> (r: Result<T, ParseError>)
+        requires self.valid(),
+    { unimplemented!() }
+}
+"""
+
+PARSE_SPEC = r"""
+// ================================================================================================================================
+// ORACLE: an expression tree whose shape IS the BIP386 notation of s.  `{A,B}` is a node with curly braces and exactly two children; everything else is a
+// SCRIPT (its own sub-expressions belong to the script).  In the pre-order array the first child sits right behind its parent, the second right behind
+// the block of descendants of the first (lemma two_children: that IS the second child, and the parent's block ends with it).
+// ================================================================================================================================
+pub open spec fn spells(ns: Seq<TreeNode>, x: int, s: Shape) -> bool decreases s {
+    &&& 0 <= x < ns.len()
+    &&& match s {
+        Shape::Leaf => ns[x].parens != Parens::Curly,
+        Shape::Node(l, r) => ns[x].parens == Parens::Curly && nch(ns, x) == 2 && spells(ns, x + 1, *l) && spells(ns, rmd(ns, x + 1) + 1, *r),
+    }
+}
+// the array index of the node a path leads to
+pub open spec fn xnode(ns: Seq<TreeNode>, x: int, bits: Seq<bool>) -> int decreases bits.len() {
+    if bits.len() == 0 { x } else { let p = xnode(ns, x, bits.drop_last()); if bits.last() { rmd(ns, p + 1) + 1 } else { p + 1 } }
+}
+// the leaf nodes, left to right = in pre-order
+pub open spec fn leaf_nodes(ns: Seq<TreeNode>, x: int, s: Shape) -> Seq<int> decreases s {
+    match s { Shape::Leaf => seq![x], Shape::Node(l, r) => leaf_nodes(ns, x + 1, *l) + leaf_nodes(ns, rmd(ns, x + 1) + 1, *r) }
+}
+
+// blocks of descendants are nested
+pub proof fn lemma_rmd_nested(ns: Seq<TreeNode>, i: int, j: int)
+    requires wf_tree(ns), 0 <= i <= j <= rmd(ns, i), i < ns.len(),
+    ensures j <= rmd(ns, j) <= rmd(ns, i),
+{
+    assert(wf_node(ns, i)); assert(wf_node(ns, j));
+    if rmd(ns, j) > rmd(ns, i) {
+        let c = rmd(ns, i) + 1;
+        // c lies in the block of j, so its parent is >= j; it lies outside the block of i, so its parent is not in [i, rmd(i)]; but parent < c
+        assert(par(ns, c) matches Some(q) && j <= q);
+        assert(wf_node(ns, c));
+    }
+}
+// a node with exactly two children: they are the node behind it and the node behind the block of the first; the block of the second ends the parent's block
+pub proof fn two_children(ns: Seq<TreeNode>, p: int)
+    requires wf_tree(ns), 0 <= p < ns.len(), nch(ns, p) == 2,
+    ensures ({
+        let c1 = p + 1; let c2 = rmd(ns, c1) + 1;
+        &&& c1 < ns.len() && par(ns, c1) == Some(p as usize)
+        &&& c2 <= rmd(ns, p) && par(ns, c2) == Some(p as usize)
+        &&& rmd(ns, c2) == rmd(ns, p)
+    }),
+{
+    let n = ns.len() as int; let c1 = p + 1; let e = rmd(ns, p);
+    assert(wf_node(ns, p));
+    let kids = is_child_of(ns, p);
+    // children of p lie in its block
+    lemma_count_split(kids, p + 1, e + 1, n);
+    assert forall|c: int| e + 1 <= c < n implies !#[trigger] kids(c) by {}
+    lemma_count_zero(kids, e + 1, n);
+    assert(p + 1 <= e) by { if e == p { lemma_count_zero(kids, p + 1, p + 1); } }
+    lemma_rmd_nested(ns, p, c1);
+    assert(wf_node(ns, c1));
+    let e1 = rmd(ns, c1);
+    // inside the block of c1 only c1 itself is a child of p
+    lemma_count_split(kids, p + 1, e1 + 1, e + 1);
+    lemma_count_first(kids, p + 1, e1 + 1);
+    assert forall|c: int| c1 + 1 <= c < e1 + 1 implies !#[trigger] kids(c) by { assert(par(ns, c) matches Some(q) && c1 <= q); }
+    lemma_count_zero(kids, c1 + 1, e1 + 1);
+    // so there is a node behind that block, and it is the second child
+    if e1 == e { lemma_count_zero(kids, e1 + 1, e + 1); }
+    let c2 = e1 + 1;
+    assert(wf_node(ns, c2));
+    assert(par(ns, c2) matches Some(q) && p <= q);
+    lemma_rmd_nested(ns, p, c2);
+    let e2 = rmd(ns, c2);
+    lemma_count_split(kids, c2, e2 + 1, e + 1);
+    lemma_count_first(kids, c2, e2 + 1);
+    assert forall|c: int| c2 + 1 <= c < e2 + 1 implies !#[trigger] kids(c) by { assert(par(ns, c) matches Some(q) && c2 <= q); }
+    lemma_count_zero(kids, c2 + 1, e2 + 1);
+    // a node behind the block of c2 inside the block of p would be a third child
+    if e2 < e {
+        let c3 = e2 + 1;
+        assert(wf_node(ns, c3));
+        assert(par(ns, c3) matches Some(q) && p <= q);
+        lemma_count_pos(kids, c3, e + 1, c3);
+    }
+}
+// the node a path leads to spells the subtree the path leads to; it lies in the block of the root
+pub proof fn lemma_spells_at(ns: Seq<TreeNode>, x: int, s: Shape, bits: Seq<bool>)
+    requires wf_tree(ns), spells(ns, x, s), sh_path_ok(s, bits),
+    ensures spells(ns, xnode(ns, x, bits), sh_sub(s, bits)), x <= xnode(ns, x, bits) <= rmd(ns, xnode(ns, x, bits)) <= rmd(ns, x),
+    decreases bits.len(),
+{
+    assert(wf_node(ns, x));
+    if bits.len() > 0 {
+        let pb = bits.drop_last(); let p = xnode(ns, x, pb);
+        lemma_spells_at(ns, x, s, pb);
+        two_children(ns, p);
+        lemma_rmd_nested(ns, p, p + 1);
+        assert(wf_node(ns, p + 1));
+    }
+}
+// where the walk stands after a finished subtree (skip_descendants / the end of a leaf): right behind its block = at the node the carry leads to
+pub proof fn lemma_carry_xnode(ns: Seq<TreeNode>, x: int, s: Shape, bits: Seq<bool>)
+    requires wf_tree(ns), spells(ns, x, s), sh_path_ok(s, bits),
+    ensures carry(bits).len() > 0 ==> xnode(ns, x, carry(bits)) == rmd(ns, xnode(ns, x, bits)) + 1,
+            carry(bits).len() == 0 ==> rmd(ns, xnode(ns, x, bits)) == rmd(ns, x),
+    decreases bits.len(),
+{
+    if bits.len() > 0 {
+        let pb = bits.drop_last();
+        if !bits.last() {
+            assert(pb.push(true).drop_last() =~= pb);
+        } else {
+            lemma_spells_at(ns, x, s, pb);
+            two_children(ns, xnode(ns, x, pb));
+            lemma_carry_xnode(ns, x, s, pb);
+        }
+    }
+}
+// the leaf nodes of the subtree a path leads to are a slice of all leaf nodes
+pub proof fn lemma_leaf_nodes_at(ns: Seq<TreeNode>, x: int, s: Shape, bits: Seq<bool>)
+    requires sh_path_ok(s, bits),
+    ensures leaf_nodes(ns, x, s).len() == sh_leaves(s),
+            leaf_nodes(ns, x, s).subrange(sh_before(s, bits) as int, (sh_before(s, bits) + sh_leaves(sh_sub(s, bits))) as int) == leaf_nodes(ns, xnode(ns, x, bits), sh_sub(s, bits)),
+    decreases bits.len(),
+{
+    lemma_leaf_nodes_len(ns, x, s);
+    lemma_sh_bounds(s, bits);
+    let whole = leaf_nodes(ns, x, s);
+    if bits.len() == 0 {
+        assert(whole.subrange(0, sh_leaves(s) as int) =~= whole);
+    } else {
+        let pb = bits.drop_last(); let p = sh_sub(s, pb); let px = xnode(ns, x, pb);
+        lemma_leaf_nodes_at(ns, x, s, pb);
+        lemma_sh_bounds(s, pb);
+        let l = sh_child(p, false); let r = sh_child(p, true);
+        lemma_leaf_nodes_len(ns, px + 1, l); lemma_leaf_nodes_len(ns, rmd(ns, px + 1) + 1, r);
+        let lb = sh_before(s, pb) as int;
+        let mid = whole.subrange(lb, lb + sh_leaves(p));
+        assert(mid == leaf_nodes(ns, px + 1, l) + leaf_nodes(ns, rmd(ns, px + 1) + 1, r));
+        if bits.last() {
+            assert(whole.subrange(lb + sh_leaves(l), lb + sh_leaves(l) + sh_leaves(r)) =~= mid.subrange(sh_leaves(l) as int, sh_leaves(p) as int));
+            assert(mid.subrange(sh_leaves(l) as int, sh_leaves(p) as int) =~= leaf_nodes(ns, rmd(ns, px + 1) + 1, r));
+        } else {
+            assert(whole.subrange(lb, lb + sh_leaves(l)) =~= mid.subrange(0, sh_leaves(l) as int));
+            assert(mid.subrange(0, sh_leaves(l) as int) =~= leaf_nodes(ns, px + 1, l));
+        }
+    }
+}
+pub proof fn lemma_leaf_nodes_len(ns: Seq<TreeNode>, x: int, s: Shape)
+    ensures leaf_nodes(ns, x, s).len() == sh_leaves(s),
+    decreases s,
+{
+    match s { Shape::Leaf => {} Shape::Node(l, r) => { lemma_leaf_nodes_len(ns, x + 1, *l); lemma_leaf_nodes_len(ns, rmd(ns, x + 1) + 1, *r); } }
+}
+// an expression tree spells at most one shape
+pub proof fn spells_at_most_one_shape(ns: Seq<TreeNode>, x: int, s1: Shape, s2: Shape)
+    requires spells(ns, x, s1), spells(ns, x, s2),
+    ensures s1 == s2,
+    decreases s1,
+{
+    match s1 {
+        Shape::Leaf => {}
+        Shape::Node(l1, r1) => {
+            match s2 {
+                Shape::Leaf => {}
+                Shape::Node(l2, r2) => { spells_at_most_one_shape(ns, x + 1, *l1, *l2); spells_at_most_one_shape(ns, rmd(ns, x + 1) + 1, *r1, *r2); }
+            }
+        }
+    }
+}
+
+// ---- TapTreeBuilder: the cursor as a path (derived from k15_taptree's contract: level d is `done` when the left subtree hanging at depth d is finished) ----
+pub uninterp spec fn bit_of(word: u128, i: int) -> bool;        // bit i of the word
+impl<Pk: MiniscriptKey> TapTreeBuilder<Pk> {
+    pub open spec fn done(&self, d: int) -> bool { if d == 128 { self.complete_128 } else { bit_of(self.complete_heights, d) } }
+    // k15_taptree `wf`: cursor within 0..=128, no flag above the cursor
+    pub open spec fn inv(&self) -> bool { self.current_height <= 128 && forall|d: int| self.current_height < d <= 128 ==> !#[trigger] self.done(d) }
+    // the path from the root to the node the builder expects next: one turn per level, right = the left subtree at that level is finished
+    pub open spec fn path(&self) -> Seq<bool> { Seq::new(self.current_height as nat, |j: int| self.done(j + 1)) }
+    pub open spec fn depths(&self) -> Seq<nat> { Seq::new(self.depths_leaves@.len(), |j: int| self.depths_leaves@[j].0 as nat) }
+}
+// the clause families proved by Kani (harnesses builder_push_leaf_h*) are exactly the Seq form consumed here: path' == carry(path)
+pub proof fn builder_clauses_are_the_seq_contract(d0: spec_fn(int) -> bool, d1: spec_fn(int) -> bool, h: int, h2: int)
+    requires 0 <= h2 <= h <= 128,                                              // push_leaf.cursor_never_descends
+             h2 == 0 || !d0(h2),                                               // push_leaf.stops_at_unfinished_left
+             forall|i: int| h2 < i <= h ==> d0(i),                             // push_leaf.climbs_only_over_finished_left   (clears_climbed_levels: those levels are above the new cursor)
+             h2 > 0 ==> d1(h2),                                                // push_leaf.marks_left_finished
+             forall|i: int| 0 < i < h2 ==> d1(i) == d0(i),                     // push_leaf.other_levels_unchanged
+    ensures Seq::new(h2 as nat, |j: int| d1(j + 1)) == carry(Seq::new(h as nat, |j: int| d0(j + 1))),
+    decreases h - h2,
+{
+    let p0 = Seq::new(h as nat, |j: int| d0(j + 1));
+    let p1 = Seq::new(h2 as nat, |j: int| d1(j + 1));
+    if h == 0 {
+        assert(p1 =~= carry(p0));
+    } else if h2 == h {
+        assert(!p0.last());
+        assert(p1 =~= p0.drop_last().push(true));
+    } else {
+        assert(p0.last());
+        assert(p0.drop_last() =~= Seq::new((h - 1) as nat, |j: int| d0(j + 1)));
+        builder_clauses_are_the_seq_contract(d0, d1, h - 1, h2);
+    }
+}
+
+// ---- the walk of Tr::from_tree: states between two nodes (derived from the code) --------------------------------------------------------
+// the node at index `lo` comes next; it is the root of the subtree at the end of the builder's path; the leaves pushed so far are those to its left
+pub open spec fn walk_open(ns: Seq<TreeNode>, x: int, s: Shape, path: Seq<bool>, lo: int, pushed: int) -> bool {
+    sh_path_ok(s, path) && lo == xnode(ns, x, path) && pushed == sh_before(s, path)
+}
+pub open spec fn walk_done(ns: Seq<TreeNode>, x: int, s: Shape, lo: int, pushed: int) -> bool { lo == rmd(ns, x) + 1 && pushed == sh_leaves(s) }
+// what has been pushed so far: depths as listed, leaves parsed from the leaf nodes in pre-order
+pub open spec fn walk_pushed<Pk: MiniscriptKey>(ns: Seq<TreeNode>, x: int, s: Shape, dl: Seq<(u8, Arc<Miniscript<Pk, Tap>>)>) -> bool {
+    &&& dl.len() <= sh_leaves(s)
+    &&& forall|j: int| 0 <= j < dl.len() ==> (#[trigger] dl[j]).0 == depths_of(s, 0)[j]
+    &&& forall|j: int| 0 <= j < dl.len() ==> spec_ms_from_tree::<Pk, Tap>(ns, leaf_nodes(ns, x, s)[j]) == Ok::<Miniscript<Pk, Tap>, Error>(*(#[trigger] dl[j]).1)
+}
+// an inner node: one level down, into its left child
+pub proof fn lemma_walk_inner(ns: Seq<TreeNode>, x: int, s: Shape, path: Seq<bool>, lo: int, pushed: int)
+    requires wf_tree(ns), spells(ns, x, s), walk_open(ns, x, s, path, lo, pushed), ns[lo].parens == Parens::Curly,
+    ensures walk_open(ns, x, s, path.push(false), lo + 1, pushed), lo + 1 <= rmd(ns, x), nch(ns, lo) == 2, path.len() < sh_height(s),
+{
+    lemma_spells_at(ns, x, s, path);
+    lemma_sh_push(s, path, false);
+    lemma_spells_at(ns, x, s, path.push(false));
+    lemma_sh_bounds(s, path);
+}
+// a script: it is leaf number `pushed`, it hangs at the depth of the builder's cursor, and the walk continues behind its block
+pub proof fn lemma_walk_leaf(ns: Seq<TreeNode>, x: int, s: Shape, path: Seq<bool>, lo: int, pushed: int)
+    requires wf_tree(ns), spells(ns, x, s), walk_open(ns, x, s, path, lo, pushed), ns[lo].parens != Parens::Curly,
+    ensures pushed < sh_leaves(s), depths_of(s, 0)[pushed] == path.len(), leaf_nodes(ns, x, s)[pushed] == lo, x <= lo <= rmd(ns, lo) <= rmd(ns, x),
+            carry(path).len() > 0 ==> walk_open(ns, x, s, carry(path), rmd(ns, lo) + 1, pushed + 1) && rmd(ns, lo) + 1 <= rmd(ns, x),
+            carry(path).len() == 0 ==> walk_done(ns, x, s, rmd(ns, lo) + 1, pushed + 1),
+{
+    lemma_spells_at(ns, x, s, path);
+    lemma_sh_next(s, path);
+    lemma_carry(s, path);
+    lemma_carry_xnode(ns, x, s, path);
+    lemma_leaf_nodes_at(ns, x, s, path);
+    let sl = leaf_nodes(ns, x, s).subrange(pushed, pushed + 1);
+    assert(sl[0] == leaf_nodes(ns, x, s)[pushed]);
+    if carry(path).len() > 0 { lemma_spells_at(ns, x, s, carry(path)); }
+}
+"""
+
+def _item_closure_self(text):
+    return text
+
+
+EXPECTED_PUSH_LEAF_SIG = "fn push_leaf<A: Into<Arc<Miniscript<Pk, Tap>>>>(&mut self, ms: A)"
+
+
+@rule("R6-push-leaf-specialised")
+def push_leaf_specialise(text):
+    """`push_leaf<A: Into<Arc<Miniscript>>>(&mut self, ms: A)` specialised to the Miniscript argument its only call site passes (`ms.into()` = Arc::new(ms))"""
+    if re.sub(r"\s+", " ", EXPECTED_PUSH_LEAF_SIG) not in re.sub(r"\s+", " ", text):
+        return None
+    return re.sub(r"fn\s+push_leaf<A:\s*Into<Arc<Miniscript<Pk,\s*Tap>>>>\(&mut self,\s*ms:\s*A\)", "fn push_leaf(&mut self, ms: Miniscript<Pk, Tap>)", text)
+
+
+@rule("R10-from-tree-walk")
+def annotate_from_tree(text):
+    """ghost scaffolding for the walk of Tr::from_tree; every local name is read off the text"""
+    ROOT = _need(re.search(r"fn\s+from_tree\(\s*(\w+)\s*:", text), "parameter ROOT").group(1)
+    mb = _need(re.search(r"let\s+mut\s+(\w+)\s*=\s*(?:taptree::)?TapTreeBuilder::new\(\)\s*;", text), "`let mut BUILDER = TapTreeBuilder::new();`")
+    B = mb.group(1)
+    mi = _need(re.search(r"let\s+mut\s+(\w+)\s*=\s*(\w+)\.pre_order_iter\(\)\s*;", text), "`let mut ITER = TAPTREE.pre_order_iter();`")
+    IT, TT = mi.group(1), mi.group(2)
+    mw = _need(re.search(r"while\s+let\s+Some\(\s*(\w+)\s*\)\s*=\s*%s\.next\(\)\s*\{" % IT, text), "`while let Some(NODE) = ITER.next() {`")
+    NODE = mw.group(1)
+    ow = mw.end() - 1
+    cw = match_close(text, ow)
+    d = dict(ROOT=ROOT, B=B, IT=IT, TT=TT, NODE=NODE)
+    NS, X = "%(TT)s.nodes@" % d, "%(TT)s.index as int" % d
+    d.update(NS=NS, X=X)
+    G = "spells(%(NS)s, %(X)s, tt_s) ==> " % d
+    edits = []
+    head, ret, where, body = split_fn(text)
+    edits.append((len(text) - len(body) + 1, "\n        let ghost tt_s: Shape = arbitrary();      // ANY shape: every clause below is stated under `the sub-tree spells tt_s`"))
+    edits.append((mi.end(), ("\n        proof { assert(wf_node(%(NS)s, %(X)s)); assert(%(B)s.path() =~= Seq::<bool>::empty()); }") % d))
+    inv = ("\n            invariant\n"
+           "                %(TT)s.valid(), %(IT)s.nodes == %(TT)s.nodes, %(IT)s.inner.hi() == rmd(%(NS)s, %(X)s), %(X)s <= %(IT)s.inner.lo(),\n"
+           "                %(B)s.inv(), //@inv builder_cursor_stays_within_128_levels [C15,C11]\n"
+           "                " + G + "((%(B)s.depths_leaves@.len() == 0 || %(B)s.path().len() > 0) ==> walk_open(%(NS)s, %(X)s, tt_s, %(B)s.path(), %(IT)s.inner.lo(), %(B)s.depths_leaves@.len() as int)), //@inv builder_path_leads_to_the_node_that_comes_next [C15,C10]\n"
+           "                " + G + "((%(B)s.depths_leaves@.len() == 0 || %(B)s.path().len() > 0) ==> %(IT)s.inner.lo() <= %(IT)s.inner.hi()), //@inv an_unfinished_tree_has_a_next_node [C15,C10]\n"
+           "                " + G + "((%(B)s.depths_leaves@.len() > 0 && %(B)s.path().len() == 0) ==> walk_done(%(NS)s, %(X)s, tt_s, %(IT)s.inner.lo(), %(B)s.depths_leaves@.len() as int)), //@inv walk_ends_with_the_last_leaf [C15,C10]\n"
+           "                " + G + "walk_pushed(%(NS)s, %(X)s, tt_s, %(B)s.depths_leaves@), //@inv every_leaf_so_far_pushed_at_the_depth_of_its_node_in_preorder [C15,C10]\n"
+           "            decreases %(IT)s.inner.hi() + 1 - %(IT)s.inner.lo()\n        ") % d
+    edits.append((ow, inv))
+    edits.append((ow + 1, ("\n            let ghost tt_p0 = %(B)s.path(); let ghost tt_dl0 = %(B)s.depths_leaves@; let ghost tt_lo0 = %(NODE)s.index as int;\n"
+                           "            proof {\n"
+                           "                lemma_rmd_nested(%(NS)s, %(X)s, tt_lo0);\n"
+                           "                if spells(%(NS)s, %(X)s, tt_s) && (tt_dl0.len() == 0 || tt_p0.len() > 0) {\n"
+                           "                    if %(NODE)s.nodes@[tt_lo0].parens == Parens::Curly { lemma_walk_inner(%(NS)s, %(X)s, tt_s, tt_p0, tt_lo0, tt_dl0.len() as int); }\n"
+                           "                    else { lemma_walk_leaf(%(NS)s, %(X)s, tt_s, tt_p0, tt_lo0, tt_dl0.len() as int); }\n"
+                           "                }\n"
+                           "            }") % d))
+    # after push_inner_node
+    mpi = _need(re.search(r"%(B)s\.push_inner_node\(\)\s*\?\s*;" % d, text[ow:cw]), "`BUILDER.push_inner_node()?;`")
+    edits.append((ow + mpi.end(), "\n                proof { assert(%(B)s.depths_leaves@ == tt_dl0); }" % d))
+    mpl = _need(re.search(r"%(B)s\.push_leaf\(\s*(\w+)\s*\)\s*;" % d, text[ow:cw]), "`BUILDER.push_leaf(SCRIPT);`")
+    msk = _need(re.search(r"%(IT)s\.skip_descendants\(\)\s*;" % d, text[ow:cw]), "`ITER.skip_descendants();`")
+    if msk.start() < mpl.start():
+        raise Undecided("Tr::from_tree: skip_descendants before push_leaf (shape not modelled)")
+    edits.append((ow + msk.end(), ("\n                proof {\n"
+                                   "                    assert(%(B)s.depths_leaves@ =~= tt_dl0.push(%(B)s.depths_leaves@.last()));\n"
+                                   "                    if spells(%(NS)s, %(X)s, tt_s) {\n"
+                                   "                        assert forall|j: int| 0 <= j < %(B)s.depths_leaves@.len() implies (#[trigger] %(B)s.depths_leaves@[j]).0 == depths_of(tt_s, 0)[j] by { if j < tt_dl0.len() { assert(%(B)s.depths_leaves@[j] == tt_dl0[j]); } }\n"
+                                   "                        assert forall|j: int| 0 <= j < %(B)s.depths_leaves@.len() implies spec_ms_from_tree::<Pk, Tap>(%(NS)s, leaf_nodes(%(NS)s, %(X)s, tt_s)[j]) == Ok::<Miniscript<Pk, Tap>, Error>(*(#[trigger] %(B)s.depths_leaves@[j]).1) by { if j < tt_dl0.len() { assert(%(B)s.depths_leaves@[j] == tt_dl0[j]); } }\n"
+                                   "                    }\n"
+                                   "                }") % d))
+    # after the loop: the result
+    mfin = _need(re.search(r"%(B)s\.finalize\(\)" % d, text[cw:]), "`BUILDER.finalize()`")
+    edits.append((cw + 1, ("\n        proof {\n"
+                           "            if spells(%(NS)s, %(X)s, tt_s) {\n"
+                           "                if %(B)s.depths_leaves@.len() == 0 || %(B)s.path().len() > 0 { assert(false); }\n"
+                           "                lemma_sh_counts(tt_s, 0);\n"
+                           "                assert(%(B)s.depths() =~= depths_of(tt_s, 0));\n"
+                           "                lemma_listing_wf(%(B)s.depths(), tt_s);\n"
+                           "            }\n"
+                           "        }") % d))
+    return S._apply_edits(text, edits)
+
+
+def emit_parse(vf, repo):
+    c11 = C11.build(repo)
+
+    def other(fq):
+        f = c11.functions.get(fq)
+        if f is None:
+            raise Undecided("c11_policy_parse no longer contracts %s" % fq)
+        items = [kc for _, kc in sorted(f["clauses"].items())]
+        return Contract(requires=[c for k, c in items if k == "requires"], ensures=[c for k, c in items if k == "ensures"], canary=False)
+
+    vf.item(TAPTREE, "struct:TapTreeDepthError", rewrites=[STRIP_DERIVE, sub("R1-attr", r"#\[non_exhaustive\]\s*", "", required=False)])
+    vf.item(EXPR, "enum:Parens", rewrites=[sub("derive", r"#\[derive\([^)]*\)\]\s*", "#[derive(Copy, Clone, PartialEq, Eq)]\n")])
+    vf.item(EXPR, "struct:TreeNode", rewrites=[C11.STRIP_DERIVE])
+    vf.item(EXPR, "struct:TreeIterItem", rewrites=[C11.COPY_DERIVE])
+    vf.item(EXPR, "struct:DirectChildIterator")
+    vf.raw(PARSE_ERRORS)
+    vf.trust("ValidationError / ValidationParams (opaque), enums ParseTreeError / ParseError / Error reduced to the variants constructed, From<TapTreeDepthError> for Error + FromSpecImpl glue, "
+             "str_to_owned_ (arbitrary) / str_is_empty_ (len == 0), PartialEqSpecImpl for Parens (derived PartialEq is structural)", "error payloads are only moved around; std string helpers")
+    vf.raw(C11.MODEL)
+    vf.trust("wf_tree (spec): ASSUMED shape of the TreeNode array behind every TreeIterItem (precondition `valid()`), text of units/c11_policy_parse.py MODEL",
+             "what expression::Tree::from_str builds (pre-order array, parent_idx / n_children / last_child_idx consistent, blocks of descendants contiguous); not verified")
+    for l in C11.MODEL_LEMMAS:
+        C11._register(vf, l)
+    vf.raw(C11.TREE_SPEC)
+    for l in C11.TREE_LEMMAS:
+        C11._register(vf, l)
+    vf.trust("trait ChildMapper / spec_parse_num (text of units/c11_policy_parse.py TREE_SPEC; not used here)", "imported with the model")
+    with vf.block("impl<'s> DirectChildIterator<'s>"):
+        vf.fn(EXPR, "impl:Iterator for DirectChildIterator<'s>/fn:next", qual="DirectChildIterator", assumed=True,
+              rewrites=[sub("R7-assoc", r"Option<Self::Item>", "Option<TreeIterItem<'s>>")], contract=other("DirectChildIterator::next"))
+    with vf.block("impl<'s> TreeIterItem<'s>"):
+        for f in ("name", "n_children", "children", "rightmost_descendant_idx"):
+            vf.fn(EXPR, "impl:TreeIterItem<'s>/fn:%s" % f, qual="TreeIterItem", assumed=True, contract=other("TreeIterItem::%s" % f))
+    vf.trust("DirectChildIterator::next, TreeIterItem::{name, n_children, children, rightmost_descendant_idx} (external_body): contracts proved in units/c11_policy_parse.py "
+             "(same Clause objects, taken from that unit's build)", "proved on the real text there")
+    vf.raw(RANGE_STUB)
+    vf.trust("struct RangeInclusive { start, end, exhausted } + new / is_empty / start / end / next (verified transcription)", "core::ops::RangeInclusive<usize>: std's definition "
+             "(`a..=b` = RangeInclusive::new(a, b); next() yields start and advances, the iteration that yields `end` sets `exhausted`; is_empty = exhausted || start > end)")
+    vf.item(EXPR, "struct:PreOrderIter", rewrites=[sub("R7-std", r"core::ops::RangeInclusive<usize>", "RangeInclusive")])
+    NS, I = "self.nodes@", "self.index as int"
+    with vf.block("impl<'s> TreeIterItem<'s>"):
+        vf.fn(EXPR, "impl:TreeIterItem<'s>/fn:parens", qual="TreeIterItem", props=("C10", "C11"),
+              contract=Contract(requires=["self.valid()"], ensures=[C("def", "r == %s[%s].parens" % (NS, I), ("C10",))]))
+        vf.fn(EXPR, "impl:TreeIterItem<'s>/fn:pre_order_iter", qual="TreeIterItem", props=("C10", "C11"),
+              rewrites=[sub("R7-range", r"(self\.index)\s*\.\.=\s*(self\.rightmost_descendant_idx\(\))", r"RangeInclusive::new(\1, \2)")],
+              contract=Contract(requires=["self.valid()"], ensures=[
+                  C("covers_the_node_and_its_descendants", "r.nodes == self.nodes && r.inner.lo() == self.index && r.inner.hi() == rmd(%s, %s)" % (NS, I), ("C10",))]))
+    with vf.block("impl<'s> PreOrderIter<'s>"):
+        vf.fn(EXPR, "impl:Iterator for PreOrderIter<'s>/fn:next", qual="PreOrderIter", props=("C10", "C11"),
+              rewrites=[sub("R7-assoc", r"Option<Self::Item>", "Option<TreeIterItem<'s>>"), C11.ITEM_CLOSURE],
+              contract=Contract(ensures=[
+                  C("yields_the_nodes_in_array_order", "old(self).inner.lo() <= old(self).inner.hi() ==> r matches Some(it) && it.nodes == old(self).nodes && it.index == old(self).inner.lo() "
+                    "&& final(self).inner.lo() == old(self).inner.lo() + 1", ("C10",)),
+                  C("none_when_exhausted", "old(self).inner.lo() > old(self).inner.hi() ==> r is None && final(self).inner.lo() > final(self).inner.hi()", ("C10",)),
+                  C("frame", "final(self).nodes == old(self).nodes && final(self).inner.hi() == old(self).inner.hi()", ())]))
+        LI = "(old(self).inner.lo() - 1)"
+        vf.fn(EXPR, "impl:PreOrderIter<'_>/fn:skip_descendants", qual="PreOrderIter", props=("C10", "C11"),
+              rewrites=[sub("R7-range", r"(skip_past \+ 1)\s*\.\.=\s*(\*self\.inner\.end\(\))", r"RangeInclusive::new(\1, \2)")],
+              contract=Contract(requires=["wf_tree(old(self).nodes@)", "old(self).inner.hi() < old(self).nodes@.len()", "old(self).inner.lo() >= 1",
+                                          "old(self).inner.lo() <= old(self).inner.hi() ==> rmd(old(self).nodes@, old(self).inner.lo() - 1) <= old(self).inner.hi()"],
+                                ensures=[
+                  C("continues_behind_the_descendants_of_the_last_node", "old(self).inner.lo() <= old(self).inner.hi() ==> final(self).inner.lo() == rmd(old(self).nodes@, %s) + 1" % LI, ("C10",)),
+                  C("nothing_to_skip_when_exhausted", "old(self).inner.lo() > old(self).inner.hi() ==> final(self).inner.lo() > final(self).inner.hi()", ("C10",)),
+                  C("frame", "final(self).nodes == old(self).nodes && final(self).inner.hi() == old(self).inner.hi()", ())]))
+    # ---- TapTreeBuilder ------------------------------------------------------------------------------------------------------------------
+    vf.item(TAPTREE, "struct:TapTreeBuilder")
+    vf.raw(PARSE_STUBS)
+    vf.trust("Miniscript::from_tree (external_body: an uninterpreted FUNCTION of the node), Miniscript::validate / Tap::CONSENSUS (arbitrary), verify_toplevel_ / verify_n_children_ "
+             "(R14 targets; Ok ==> / <==> the number of children is in the range), TreeIterItem::verify_terminal (arbitrary)",
+             "text-level parsing and validation are units c10_notation / c12_from_tree's; verify_n_children's text: Ok iff `n_children.contains(&self.n_children())`")
+    vf.spec_obligation("oracle::expression_tree_spells_a_shape_and_walk_states", S._novis(PARSE_SPEC), P1510)
+    vf.trust("uninterp bit_of(u128, int)", "bit i of complete_heights; the bit arithmetic of TapTreeBuilder::push_leaf is decided by Kani (k15_taptree), only its Seq-level contract is consumed")
+    with vf.block("impl<Pk: MiniscriptKey> TapTreeBuilder<Pk>"):
+        vf.fn(TAPTREE, "impl:TapTreeBuilder<Pk>/fn:new", qual="TapTreeBuilder", props=("C15", "C11"),
+              rewrites=[body_start("proof { assume_no_bits_in_zero(); }")],
+              contract=Contract(ensures=[C("empty_at_the_root", "r.inv() && r.path() == Seq::<bool>::empty() && r.depths_leaves@.len() == 0")]))
+        vf.fn(TAPTREE, "impl:TapTreeBuilder<Pk>/fn:push_inner_node", qual="TapTreeBuilder", props=("C15", "C11"),
+              rewrites=[sub("R10", r"(Ok\(\(\)\)\s*\}\s*)$", r"proof { assert(self.path() =~= old(self).path().push(false)); }\n        \1")],
+              contract=Contract(requires=["old(self).inv()"], ensures=[
+                  C("err_iff_depth_would_exceed_128", "r is Err <==> old(self).current_height + 1 > 128"),
+                  C("descends_into_the_left_child", "r is Ok ==> final(self).inv() && final(self).path() == old(self).path().push(false)"),
+                  C("leaves_unchanged", "final(self).depths_leaves == old(self).depths_leaves")]))
+        vf.fn(TAPTREE, "impl:TapTreeBuilder<Pk>/fn:push_leaf", qual="TapTreeBuilder", assumed=True, rewrites=[push_leaf_specialise],
+              contract=Contract(requires=["old(self).inv()"], ensures=[
+                  C("records_the_leaf_at_the_cursor_depth", "final(self).depths_leaves@ == old(self).depths_leaves@.push(final(self).depths_leaves@.last()) "
+                    "&& final(self).depths_leaves@.last().0 == old(self).current_height && *final(self).depths_leaves@.last().1 == ms"),
+                  C("cursor_carries_to_the_next_unfinished_position", "final(self).inv() && final(self).path() == carry(old(self).path())")]))
+        vf.fn(TAPTREE, "impl:TapTreeBuilder<Pk>/fn:finalize", qual="TapTreeBuilder", props=("C15", "C11"),
+              contract=Contract(requires=["self.depths_leaves@.len() > 0"], ensures=[C("hands_the_leaves_over", "r.depths_leaves == self.depths_leaves")]))
+    vf.trust("TapTreeBuilder::push_leaf (external_body, contract only; specialised to the Miniscript argument of its only call site)",
+             "proved COMPLETE by Kani in unit k15_taptree (harnesses builder_push_leaf_h000_031 .. h120_128) with the same meaning: records (current_height, leaf); "
+             "new cursor h2 = max { d <= h : d == 0 or !done(d) }, levels in (h2, h] cleared, done(h2) set, other levels unchanged, invariant kept  <=>  path' == carry(path) over "
+             "path = [done(1) .. done(h)] (equivalence proved: builder_clauses_are_the_seq_contract)")
+    # ---- Tr::from_tree ------------------------------------------------------------------------------------------------------------------------
+    TR_FT = "impl:crate::expression::FromTree for Tr<Pk>/fn:from_tree"
+    XT = "xtree_index(root.nodes@, root.index as int)"
+    with vf.block("impl<Pk: MiniscriptKey> Tr<Pk>"):
+        vf.fn(TRMOD, TR_FT, qual="Tr", props=("C15", "C10", "C11"),
+              rewrites=[sub("R7-use", r"\buse (?:crate::)?expression::\{[^}]*\};\s*", "", required=False),
+                        sub("R7", r"\b(?:(?:crate::)?expression|taptree)::", "", required=False),
+                        sub("R14-verify", r"(\w+)\s*\.(verify_toplevel|verify_n_children)\(\s*(\"[^\"]*\")\s*,\s*(\d+)\s*\.\.=\s*(\d+)\s*\)\s*\.map_err\(From::from\)\s*\.map_err\(Error::Parse\)",
+                            r"\2_(\1, \3, \4, \5)"),
+                        C11.ETA, sub("R12", r"\bTap::CONSENSUS\b(?!\s*\()", "Tap::CONSENSUS()", required=False),
+                        sub("R7-std", r"(\w+)\.name\(\)\.to_owned\(\)", r"str_to_owned_(\1.name())", required=False),
+                        sub("R7-std", r"(\w+)\.name\(\)\.is_empty\(\)", r"str_is_empty_(\1.name())", required=False),
+                        annotate_from_tree],
+              contract=Contract(requires=["root.valid()"], ensures=[
+                  C("no_tree_argument_no_tree", "r is Ok && nch(root.nodes@, root.index as int) == 1 ==> r->Ok_0.tree is None", P1510),
+                  C("depths_are_the_depths_of_the_shape_spelled", "r is Ok && nch(root.nodes@, root.index as int) == 2 ==> forall|s: Shape| spells(root.nodes@, %s, s) ==> "
+                    "r->Ok_0.tree is Some && #[trigger] depths_of(s, 0) == tap_depths(r->Ok_0.tree->Some_0)" % XT, P1510),
+                  C("leaves_are_the_scripts_in_preorder", "r is Ok && nch(root.nodes@, root.index as int) == 2 ==> forall|s: Shape| spells(root.nodes@, %s, s) ==> "
+                    "r->Ok_0.tree is Some && walk_pushed(root.nodes@, %s, s, r->Ok_0.tree->Some_0.depths_leaves@) && r->Ok_0.tree->Some_0.depths_leaves@.len() == #[trigger] sh_leaves(s)" % (XT, XT), P1510),
+                  C("parsed_tree_is_well_formed", "r is Ok && nch(root.nodes@, root.index as int) == 2 ==> forall|s: Shape| #[trigger] spells(root.nodes@, %s, s) ==> "
+                    "r->Ok_0.tree is Some && tap_tree_wf(r->Ok_0.tree->Some_0) && denote(tap_depths(r->Ok_0.tree->Some_0)) == s" % XT, P1510),
+              ]))
+        register_named_invariants(vf, "Tr::from_tree")
+
+
 def spendinfo_stubs():
     """c15_spendinfo's stubs of the crate / rust-bitcoin types its oracle mentions, without the BitStack128 part"""
     marker = "// ---- BitStack128"
@@ -915,6 +1646,8 @@ def build(repo):
              "as in c20_translate / c12_from_tree (which verifies that text)")
     emit_translate(vf)
     emit_fmt(vf)
+    emit_display(vf)
+    emit_parse(vf, repo)
     return vf
 
 
